@@ -397,8 +397,8 @@ def derived_rule_st(draw, base):
 
 VALUE_POOL = {
     None: ['tom', '12', 'a', 'ab', 'abc', 'é', 'x.y', '-3', '', 'a b', 'a\rb', 'to', 'le', '日本', '1', 'b'],
-    'int': ['12', '-3', '007', '0', '1', '-0', '99', '5\u00b2', '\u00b2', '\u2460', '\u0663', '\uff15', '1\u00b9', '-\u0661'],
-    'float': ['1.5', '-2.0', '3', '0.0', '1.', '12.25', '1e3'],
+    'int': ['12', '-3', '007', '0', '1', '-0', '99', '5\u00b2', '\u00b2', '\u2460', '\u0663', '\uff15', '1\u00b9', '-\u0661', '+5', '+0', '1+2', ' 7', '1_0', '0x1f'],
+    'float': ['1.5', '-2.0', '3', '0.0', '1.', '12.25', '1e3', '+1.5', '.5', '1_0.0', 'inf', 'nan', '-.5'],
     're': ['tom', 'tos', 'to/', 'to', 'abc', 'ab', 'abab', '12', '123', 'profile', 'prol', 'a', 'aa', 'ff', 'x/y', '', '-007', '1.50', '42'],
     'path': ['a/b', 'this/path/to', 'x', 'a', 'end', 'a/end/b', 'le', ''],
     'rex': ['a1', 'b22', 'png', 'jpg', 'x', 'yy', 'zzz', 'tom', 'ab', 'a07', 'q'],
@@ -420,7 +420,7 @@ def path_for(draw, ast):
     p = ''.join(out)
     if draw(st.integers(0, 99)) < 35 and p:
         k = draw(st.integers(0, len(p)))
-        ch = draw(st.sampled_from(list('abc/1-.toé\r') + ['//', '\n', 'le', '/', '\u00b2', '\u0663', '\u2460', 'w', '_']))
+        ch = draw(st.sampled_from(list('abc/1-.toé\r+') + ['//', '\n', 'le', '/', '\u00b2', '\u0663', '\u2460', 'w', '_']))
         op = draw(st.sampled_from(['ins', 'del', 'rep']))
         if op == 'ins':
             p = p[:k] + ch + p[k:]
